@@ -12,7 +12,7 @@ import ast
 from fractions import Fraction
 from typing import Optional
 
-from ..program import AnalysisError, Program, unparse, short, walk_no_nested
+from ..program import AnalysisError, Program, unparse, short, walk_no_nested, increment_of
 from ..report import Report
 from . import c06, c19
 
@@ -141,8 +141,8 @@ def trip_count_rule(prog: Program, rep: Report) -> None:
             except Exception:
                 pass
     upd = prog.role_func("time", "update")
-    inc = [n for n in walk_no_nested(upd.node) if isinstance(n, ast.AugAssign) and unparse(n.target) == "self.step" and isinstance(n.op, ast.Add)]
-    inc_v = int(ast.literal_eval(inc[0].value)) if len(inc) == 1 else None
+    inc = [increment_of(n) for n in walk_no_nested(upd.node) if (increment_of(n) or ("", 0))[0] == "self.step"]
+    inc_v = inc[0][1] if len(inc) == 1 else None
     mi = prog.func("model.Model.__init__")
     warm_step = None
     for n in walk_no_nested(mi.node):
@@ -275,7 +275,7 @@ def numbering_rule(prog: Program, rep: Report) -> None:
     if len(loops) == 1 and unparse(loops[0].test) == "True":
         body = loops[0].body
         ys = [i for i, s in enumerate(body) if isinstance(s, ast.Expr) and isinstance(s.value, ast.Yield)]
-        incs = [i for i, s in enumerate(body) if isinstance(s, ast.AugAssign) and unparse(s.target) == "filenumber" and isinstance(s.op, ast.Add) and unparse(s.value) == "1"]
+        incs = [i for i, s in enumerate(body) if increment_of(s) == ("filenumber", 1)]
         ok = len(ys) == 1 and len(incs) == 1 and ys[0] < incs[0] and len(body) == 2 and "filename_template.format(filenumber)" in unparse(body[ys[0]]) and "filename.parent" in unparse(body[ys[0]])
     rep.check(rule, fi.qual, "yield parent/template.format(n); n += 1", ok, what_bad="file numbers must increase by exactly one per file, first file = start number", what_ok="consecutive numbers", loc=fi.loc())
 
@@ -330,5 +330,6 @@ AUDIT = [
     Mut("gate-gt0", MO, "        if step >= 0:\n            self.output.update()", "        if step > 0:\n            self.output.update()", rule="R07.5"),
     Mut("benign-ceil-form", ON, "            self.num_records = int(-(-timer.Nsteps // self.output_period_step))", "            self.num_records = int((timer.Nsteps + self.output_period_step - 1) // self.output_period_step)", expect="silent"),
     Mut("benign-not-mod", ON, "        if step % self.output_period_step == 0:", "        if not step % self.output_period_step:", expect="silent"),
+    Mut("benign-inc-form", ON, "        filenumber += 1\n", "        filenumber = filenumber + 1\n", expect="silent"),
     Mut("benign-ceil-form2", ON, "            self.num_records = int(-(-timer.Nsteps // self.output_period_step))", "            self.num_records = 1 + (timer.Nsteps - 1) // self.output_period_step", expect="silent"),
 ]
